@@ -99,8 +99,8 @@ Record rctx := mkCtx {
 
 (** `replace_alias_name_with_cte_name`; [scoped] = the generated fact that the lookup is intersected with the
     sequence ids of the expression's own CTEs (`if cte.args["sequence_id"] in mapping[name]`).  With
-    [scoped = false] the model takes the most recent registration of the name, whatever expression it was
-    made for -- the behaviour a property-breaking edit would have. *)
+    [scoped = false] the model takes the last CTE of the expression as soon as the name has been registered by
+    anybody -- the behaviour of the loop without its membership test, a property-breaking edit. *)
 Definition resolve_alias (scoped : bool) (r : regs) (x : rctx) (s : string) : res :=
   if amap_has r s then
     if scoped then
@@ -109,8 +109,8 @@ Definition resolve_alias (scoped : bool) (r : regs) (x : rctx) (s : string) : re
       | None => Keep
       end
     else
-      match rev (amap_ids r s) with
-      | i :: _ => Found (TA (AId i))
+      match rev (x_ctes x) with
+      | c :: _ => Found (c_name c)
       | [] => Keep
       end
   else Keep.
@@ -192,7 +192,7 @@ Qed.
 (** the unscoped variant is NOT local: a registration made for another expression changes the answer *)
 Example resolve_unscoped_not_local :
   let x := mkCtx [mkCte (TA (AS "t1")) 0 1 ["a"] TNil] [] in
-  let r := mkRegs [0;1] [0] [1] [("x", 1)] in
-  let r' := mkRegs [0;1;7] [0] [1;7] [("x", 1); ("x", 7)] in
+  let r := mkRegs [0;1] [0] [1] [] in
+  let r' := mkRegs [0;1;7] [0] [1;7] [("x", 7)] in
   agree_on (ids_of x) (IName "x") r r' /\ resolve false r x (IName "x") <> resolve false r' x (IName "x").
 Proof. simpl. split; [|discriminate]. intros i [<-|[<-|[]]]; reflexivity. Qed.
